@@ -31,6 +31,7 @@ pub struct Unit {
     pub guards: BTreeSet<String>,     // `guard a b`: methods that return a lock guard (rule G6)
     pub eagersync: BTreeSet<String>,  // eager names whose un-awaited call is a synchronous call of a same-named function (not a future value)
     pub onrecv: Vec<(String, String, String)>, // method `m` called on the local `x` is renamed (`on x m => n`)
+    pub dropfx: Vec<(String, String)>,       // `dropfx name => f`: an explicit `drop(e)` where `e` names `name` (a local, `self.name`, a capture `self_name`) is `f(e)` (a drop with an effect the model knows)
     pub panic_forbidden: bool,        // `panics forbidden`: a panic in this unit's functions is an obligation failure, not a path end
     pub pure_paths: BTreeSet<String>,  // call paths that never take the ghost world, whatever their last segment is called
     pub adapters_off: bool,
@@ -61,6 +62,7 @@ impl Unit {
                 "broadcast" => u.broadcasts.extend(words()),
                 "define" => { let w: Vec<String> = words().collect(); if w.len() == 2 { u.defines.push((w[0].clone(), w[1].clone())); } }
                 "expr" => { let (a, b) = rest.split_once("=>").ok_or_else(|| format!("{}:{}: expected `a => b`", p.display(), n + 1))?; u.exprs.push((nospace(a), b.trim().to_string())); }
+                "dropfx" => { let (a, b) = rest.split_once("=>").ok_or_else(|| format!("{}:{}: expected `dropfx name => f`", p.display(), n + 1))?; u.dropfx.push((a.trim().to_string(), b.trim().to_string())); }
                 "on" => { let (a, b) = rest.split_once("=>").ok_or_else(|| format!("{}:{}: expected `on x m => n`", p.display(), n + 1))?; let ws: Vec<&str> = a.split_whitespace().collect(); if ws.len() != 2 { return Err(format!("{}:{}: on x m => n", p.display(), n + 1)); } u.onrecv.push((ws[0].to_string(), ws[1].to_string(), b.trim().to_string())); }
                 "chain" => { let (a, b) = rest.split_once("=>").ok_or_else(|| format!("{}:{}: expected `a b => c`", p.display(), n + 1))?; let ws: Vec<&str> = a.split_whitespace().collect(); if ws.len() != 2 { return Err(format!("{}:{}: chain a b => c", p.display(), n + 1)); } u.chains.push((ws[0].to_string(), ws[1].to_string(), b.trim().to_string())); }
                 "generic" => { let (a, b) = rest.split_once("=>").ok_or_else(|| format!("{}:{}: expected `a => b`", p.display(), n + 1))?; u.generics.push((nospace(a), b.trim().to_string())); }
